@@ -563,6 +563,14 @@ add("permutation_retry_as_endless_loop_with_return", (GU, _RETRY_OLD, _RETRY_GUA
 add("permutation_retry_as_endless_loop_returns_unchanged", (GU, _RETRY_OLD, _RETRY_GUARD % "m.edges == m_permu.edges"), fires={"R-RETRY"},
     note="the same with the test the wrong way round: the first candidate that leaves the bonds unchanged is returned")
 
+add("parser_attribute_record_replaced_per_entry", (PAR, "        attrs_for_node = self._node_attributes.setdefault(node_index - 1, {})", "        attrs_for_node = self._node_attributes[node_index - 1] = {}"),
+    fires={"R-LISTENSAMPLE", "R-DUPATTR", "R-FLOW-PARSE"}, note="a second attribute of an atom replaces the first: shown on the spelling samples")
+add("permutation_relabels_by_enumerate", (GU, "    m_relabeled = nx.relabel_nodes(m, dict(zip(permuted_labels, labels)), copy=True)",
+    "    m_relabeled = nx.relabel_nodes(m, {old: new for new, old in enumerate(permuted_labels)}, copy=True)"), fires={"R-PERMSAMPLE"},
+    note="the result lives on 0..n-1 instead of the argument's labels (only the sample molecules with other labels show it)")
+add("v3000_atom_table_sorted_by_number", (V3, "    return atom_attrs, star_atoms", "    return dict(sorted(atom_attrs.items())), star_atoms"), fires={"R-V3SAMPLE"},
+    note="atoms in the order of their numbers in the file, not in file order")
+
 add("v3000_endpts_search_untested", (V3, """    if endpts_match is None:
         # silently ignore everything that has no ENDPTS (e.g. use of star atoms in polymers)
         return []
